@@ -4,6 +4,7 @@ import CCVerif.Lemmas.RSModelGen
 import CCVerif.Lemmas.RSModelGenRen
 import CCVerif.Lemmas.RSModelGenFrag
 import CCVerif.Lemmas.RSModelGenSim
+import CCVerif.Lemmas.EvaluatorAnalysis
 /-!
 # C11 — a model never shows a calculated value that is stale w.r.t. current data
 -/
@@ -311,5 +312,97 @@ def gHistRen : List (Op Schema.Def RSModel.Data) :=
 example : AdmissibleAllFrom fragA fragE {} gHistRen := by decide
 example : (run fragA fragE gHistRen).report =
     [(1, false, some [1, 3]), (2, false, none), (4, true, some [1, 3])] := by decide
+
+end CCVerif.RSModelGen
+
+/-! # The real type-checker model + the real evaluator model
+
+`checkerA` / `checkerR` (`Lemmas/CheckerAnalysis.lean`, `Lemmas/CheckerRename.lean`): the C03 type checker
+as the analysis; `evaluatorE fuel` (`Lemmas/EvaluatorAnalysis.lean`): `Interpreter::Evaluate` =
+`Model/Normalize.lean` + `Model/Eval.lean` on the tree of `Generator::GlobalDefinition(alias, definition)`
+against the values stored for the mentioned constituents, as `CalculateCstInternal` runs it.
+`EvalLawful` is PROVED for this pair (`evaluatorE_lawful`; `mono` by induction over the name collector,
+`Lemmas/EvaluatorFrame.lean`), so the generic theorem applies. Restrictions of the instance (all
+explicit in `Lemmas/EvaluatorAnalysis.lean`): empty `SyntaxTreeContext` (a term that calls a term
+function gets no value), constant `TraitsFor`, kinds base / term. -/
+namespace CCVerif.RSModelGen
+open CCVerif.SchemaGen (checkerA checkerR CDef CInfo checkerA_lawful checkerR_lawful glob setMinus renameC mentionsOf)
+
+/-- full statement: the checker with the real `rename` and the evaluator, ALL admissible histories
+(renamings with and without substitution included) -/
+def fresh_checker_evaluator_statement : Prop :=
+  ∀ (traits : Types.TraitEnv) (fuel : Nat) (ops : List (Op CDef Eval.Val)),
+    AdmissibleAllFrom (checkerR fun _ => traits) (evaluatorE fuel) {} ops →
+    (run (checkerR fun _ => traits) (evaluatorE fuel) ops).Fresh (checkerR fun _ => traits) (evaluatorE fuel)
+
+/-- **C11 for the type-checker model and the evaluator model** (part: histories without the renaming
+operations `setAlias` / `substitute`, which `AdmissibleFrom` excludes). For every trait environment,
+every fuel and every admissible history of insertions, erasures, definition edits, `UpdateState`, data
+edits of base sets, `Calculate` and `RecalculateAll` — definitions being arbitrary syntax trees — every
+term that reports a calculated value reports the value a full re-analysis and recalculation from the
+current base data and definitions gives. No hypothesis on analysis or evaluation is left. -/
+theorem fresh_checker_evaluator_partial (traits : Types.TraitEnv) (fuel : Nat) (ops : List (Op CDef Eval.Val))
+    (ha : AdmissibleFrom (checkerA fun _ => traits) (evaluatorE fuel) {} ops) :
+    (run (checkerA fun _ => traits) (evaluatorE fuel) ops).Fresh (checkerA fun _ => traits) (evaluatorE fuel) :=
+  fresh_generic_no_renaming _ _ (checkerA_lawful _) (evaluatorE_lawful traits fuel) ops ha
+
+/-- the same over the checker instance with the real `rename` of C08 -/
+theorem fresh_checkerR_evaluator_partial (traits : Types.TraitEnv) (fuel : Nat) (ops : List (Op CDef Eval.Val))
+    (ha : AdmissibleFrom (checkerR fun _ => traits) (evaluatorE fuel) {} ops) :
+    (run (checkerR fun _ => traits) (evaluatorE fuel) ops).Fresh (checkerR fun _ => traits) (evaluatorE fuel) :=
+  fresh_generic_no_renaming _ _ (checkerR_lawful _) (evaluatorE_lawfulR traits fuel) ops ha
+
+/-- stronger, independent of the `calculated` flag: whatever value is stored for a term is the value a
+full recalculation assigns -/
+theorem stored_eq_recomputed_checker_evaluator_partial (traits : Types.TraitEnv) (fuel : Nat)
+    (ops : List (Op CDef Eval.Val))
+    (ha : AdmissibleFrom (checkerA fun _ => traits) (evaluatorE fuel) {} ops) {u : Nat} {v : Eval.Val}
+    (hk : (run (checkerA fun _ => traits) (evaluatorE fuel) ops).kindOf u = some .term)
+    (hv : (run (checkerA fun _ => traits) (evaluatorE fuel) ops).dataFor u = some v) :
+    ((run (checkerA fun _ => traits) (evaluatorE fuel) ops).recomputed (checkerA fun _ => traits)
+      (evaluatorE fuel)).dataFor u = some v :=
+  (Inv.run (checkerA_lawful _) (evaluatorE_lawful traits fuel) ha).recomputed_eq (checkerA_lawful _)
+    (evaluatorE_lawful traits fuel) hk hv
+
+/-- why the full statement does not follow from `fresh_generic`: the law `Equivariant.rename_id` is
+FALSE for the checker on the carrier `Option Ast` of ALL trees — `TranslateRS` renames every global
+token, the graph updater reports the visited positions only. In the tree `X1(X2)` (a child below an
+identifier, which no parser builds) `X2` is not mentioned, and renaming `X2 ↦ X3` changes the tree. -/
+theorem equivariant_checker_counterexample (traits : Types.TraitEnv) (fuel : Nat) :
+    ¬ Nonempty (Equivariant (checkerR fun _ => traits) (evaluatorE fuel)) := by
+  rintro ⟨hQ⟩
+  have hm : ∀ m ∈ mentionsOf (some (.node .ID_GLOBAL (.text "X1") 0 0 [glob "X2"])),
+      ren (fun n => if n = "X2" then some "X3" else none) m = m := by decide
+  have h : renameC (fun n => if n = "X2" then some "X3" else none)
+      (some (.node .ID_GLOBAL (.text "X1") 0 0 [glob "X2"])) = some (.node .ID_GLOBAL (.text "X1") 0 0 [glob "X2"]) :=
+    hQ.rename_id (fun n => if n = "X2" then some "X3" else none)
+      (some (.node .ID_GLOBAL (.text "X1") 0 0 [glob "X2"])) hm
+  revert h
+  decide
+
+private def un (a b : Syntax.Ast) : Syntax.Ast := .node .UNION .none 0 0 [a, b]
+
+/-- `X1` = {1,2}; `D1 := X1∪X1`, `D2 := D1\X1`, both calculated; `X1` edited to {1,3}; `D1` calculated;
+the definition of `D2` edited to `D1∪D1`; `D2` calculated; `X1` edited to {5}; `D1` calculated -/
+def histEval : List (Op CDef Eval.Val) :=
+  [.schema (.insert ⟨1, "X1", .base, none⟩), .setBase 1 (.s [.e 1, .e 2]),
+   .schema (.insert ⟨2, "D1", .term, some (un (glob "X1") (glob "X1"))⟩),
+   .schema (.insert ⟨3, "D2", .term, some (setMinus (glob "D1") (glob "X1"))⟩),
+   .recalculateAll, .setBase 1 (.s [.e 1, .e 3]), .calculate 2,
+   .schema (.setDef 3 (some (un (glob "D1") (glob "D1")))), .calculate 3, .setBase 1 (.s [.e 5]), .calculate 2]
+
+/-! non-vacuity: the history is admissible; the values after `RecalculateAll`, after the second
+`Calculate` and at the end -/
+example : AdmissibleFrom (checkerA fun _ => []) (evaluatorE 10) {} histEval := by decide +kernel
+example : (run (checkerA fun _ => []) (evaluatorE 10) (histEval.take 5)).report =
+    [(1, false, some (.s [.e 1, .e 2])), (2, true, some (.s [.e 1, .e 2])), (3, true, some (.s []))] := by
+  decide +kernel
+example : (run (checkerA fun _ => []) (evaluatorE 10) (histEval.take 9)).report =
+    [(1, false, some (.s [.e 1, .e 3])), (2, true, some (.s [.e 1, .e 3])), (3, true, some (.s [.e 1, .e 3]))] := by
+  decide +kernel
+example : (run (checkerA fun _ => []) (evaluatorE 10) histEval).report =
+    [(1, false, some (.s [.e 5])), (2, true, some (.s [.e 5])), (3, false, none)] := by
+  decide +kernel
+example : EvalLawful (checkerA fun _ => []) (evaluatorE 10) := evaluatorE_lawful [] 10
 
 end CCVerif.RSModelGen
